@@ -5,9 +5,13 @@ per case). Driver: raw puppet client sending hand-built USERAUTH messages (vlib.
 encoders, signatures made with `cryptography`, never paramiko's PKey/Message).
 
 Program = <= 12 steps in arbitrary order over none / password (plain and change-request form) /
-publickey (every pool key type x algorithm; probe, valid signature, or a signature with exactly
-one ingredient wrong: session id of another real session, session id omitted / empty, user,
-service, algorithm, key blob, method name, signed by another key, truncated, bit flipped, missing)
+publickey (every pool key type x algorithm, plain keys and OpenSSH certificates of them built by the
+harness, RSA with rsa-sha2-512/-256/ssh-rsa declared; probe, valid signature, or a signature with
+exactly one ingredient wrong: session id of another real session, session id omitted / empty, user,
+service, algorithm (replaced by EVERY alternative name: the other algorithms of the family, the key
+type inside the blob, certificate suffix added / removed, near miss, empty), key blob (sibling key; for
+a certificate the plain blob of the same key), method name, signed by another key, truncated, bit
+flipped, missing)
 / keyboard-interactive with 0-2 query rounds / INFO_RESPONSE at arbitrary points /
 gssapi-with-mic and gssapi-keyex against a stub GSS context / unknown method names.
 
@@ -16,6 +20,10 @@ Multi-message exchanges are program building blocks of their own: a keyboard-int
 INFO_RESPONSE rounds whose application results are generated per round (a further query, or
 FAILED / PARTIAL / SUCCESSFUL), with 0-2 OTHER steps (any kind: other methods, probes, another
 exchange, a gssapi-with-mic exchange that is then abandoned) interleaved before every round.
+The two-step publickey exchange is a building block too: the unsigned query for a key, 0-1 other steps,
+the signed request for the same key and algorithm (valid or forged). The application's answer to a
+publickey request can be dictated PER CALL ("r"), so it may change between query and signed request
+(FAILED / PARTIAL / SUCCESSFUL x FAILED / PARTIAL / SUCCESSFUL are enumerated).
 Every request step names the session's user or (generated) one of the other users.
 
 Oracle, after every step: "granted" (USERAUTH_SUCCESS among the replies, or any of
@@ -46,8 +54,12 @@ RULE = (
     "programs are built from single requests and from whole keyboard-interactive exchanges (request + 0..3 INFO_RESPONSE rounds, the "
     "application's answer generated per round: further InteractiveQuery / FAILED / PARTIAL / SUCCESSFUL) with 0..2 other steps of any "
     "kind interleaved before each round; every request names the session's user or a generated other user (4 names); "
-    "publickey steps over 9 pool keys x their algorithms x 16 signature variants (valid + 15 single-ingredient forgeries incl. a "
-    "signature made for another real session); GSS methods against a stub context whose MIC check passes/raises as generated; "
+    "publickey steps over 9 pool keys + 4 harness-built OpenSSH certificates x their algorithms (RSA: rsa-sha2-512/-256/ssh-rsa, with and "
+    "without certificate suffix) x 16 signature variants (valid + 15 single-ingredient forgeries incl. a signature made for another real "
+    "session; the changed-algorithm forgery enumerates every alternative name: other algorithm of the family, key type of the blob, "
+    "certificate suffix toggled, near miss, empty); the two-step exchange (query answered PK_OK, 0..1 other steps, signed request for the "
+    "same key) is a block of its own with the application's publickey answer generated per call, so that it can change between query and "
+    "signed request (all 9 result pairs x valid/forged proof enumerated); GSS methods against a stub context whose MIC check passes/raises as generated; "
     "non-trivial = the program contains a forged/probe/replayed publickey request, or a step whose responsible callback returns "
     "non-success, or a failing GSS proof; a grant must also be for the user the approving callback was asked about "
     "(get_username()); distinct by (policy, steps)"
@@ -72,7 +84,28 @@ PK_VARIANTS = [
     "emptysig",
     "sigalg",
 ]
-KEYNAMES = sorted(A.KEY_ALGOS)
+PLAINKEYS = sorted(A.KEY_ALGOS)
+CERTKEYS = sorted(A.CERT_KEY_ALGOS)
+KEYNAMES = PLAINKEYS + CERTKEYS
+# a second blob for the "key field changed" forgery: another key of the type; for a certificate the plain blob of the SAME key
+SIBLING = dict(A.SIBLING, **{c: A.base_key(c) for c in CERTKEYS})
+
+
+def sig_algo(algo):
+    """Algorithm name inside the signature blob: the declared one without the certificate suffix."""
+    return algo.replace(A.CERT_SUFFIX, "")
+
+
+def algo_alternatives(key, algo):
+    """Every other name that could stand in the algorithm field of the signed data: the other algorithms of the
+    key's family, the same names with / without the certificate suffix, the key TYPE inside the blob, near misses."""
+    fam = list(A.key_algos(key))
+    base = [sig_algo(a) for a in fam]
+    out = []
+    for a in fam + base + [a + A.CERT_SUFFIX for a in base] + [R.Reader(A.pub_blob(key)).string().decode(), algo + "x", ""]:
+        if a != algo and a not in out:
+            out.append(a)
+    return out
 
 
 # ----------------------------------------------------------------------------- generator
@@ -86,7 +119,7 @@ def policies(draw):
     return {
         "none": draw(st.sampled_from(["F", "F", "F", "P", "S"])),
         "password": {"good": draw(res), "bad": draw(st.sampled_from(["F", "F", "P", "S"]))},
-        "pk": dict([("default", draw(res))] + [(k, draw(res)) for k in draw(st.lists(st.sampled_from(KEYNAMES), max_size=3, unique=True))]),
+        "pk": dict([("default", draw(res))] + [(k, draw(res)) for k in draw(st.lists(st.sampled_from(PLAINKEYS), max_size=3, unique=True))]),
         "kbd": draw(st.sampled_from(["F", "P", "S", "query", "query"])),
         "rounds": draw(st.lists(st.sampled_from(["F", "P", "S", "query"]), max_size=3)),
         "gssmic": draw(res),
@@ -94,12 +127,26 @@ def policies(draw):
     }
 
 
+pk_r = st.sampled_from([None, None, None, "F", "P", "S"])
+
+
+def _pk(key, algo, v, alt=None, r=None):
+    """"alt": which alternative name the "algo" forgery writes into the signed data; "r": the application's
+    answer to exactly this message (absent: the case-wide policy for the key decides)."""
+    stp = {"k": "pk", "key": key, "algo": algo, "v": v}
+    if v == "algo" and alt is not None:
+        stp["alt"] = alt
+    if r is not None:
+        stp["r"] = r
+    return stp
+
+
 @st.composite
 def pk_step(draw):
     key = draw(st.sampled_from(KEYNAMES))
-    algo = draw(st.sampled_from(A.KEY_ALGOS[key]))
-    v = draw(st.sampled_from(PK_VARIANTS + ["valid", "probe"]))
-    return {"k": "pk", "key": key, "algo": algo, "v": v}
+    algo = draw(st.sampled_from(A.key_algos(key)))
+    v = draw(st.sampled_from(PK_VARIANTS + ["valid", "probe", "algo"]))
+    return _pk(key, algo, v, draw(st.integers(0, 9)), draw(pk_r))
 
 
 tok = st.one_of(st.binary(min_size=1, max_size=8), st.none(), st.just("raise"))
@@ -147,15 +194,31 @@ def kbd_exchange(draw, min_rounds=0):
 
 
 @st.composite
+def pk_twostep(draw):
+    """The two-step publickey exchange of RFC 4252 section 7 as one block: the unsigned query for a key, 0-1 other
+    steps, then the signed request for the same key and algorithm (valid or any forgery variant). The application's
+    answer is generated PER CALL (absent = the case-wide policy), so it may differ between query and signed request."""
+    key = draw(st.sampled_from(KEYNAMES))
+    algo = draw(st.sampled_from(A.key_algos(key)))
+    r1 = draw(st.sampled_from(["P", "S", "P", "S", "F", None]))
+    r2 = draw(st.sampled_from(["F", "P", "S", "P", "S", None]))
+    v = draw(st.sampled_from(["valid"] * 6 + [x for x in PK_VARIANTS if x != "probe"]))
+    between = draw(st.lists(step, max_size=1)) if draw(st.integers(0, 3)) == 0 else []
+    return [_pk(key, algo, "probe", r=r1)] + between + [_pk(key, algo, v, draw(st.integers(0, 9)), r2)]
+
+
+@st.composite
 def case_strategy(draw, exchange_centred=False):
-    """exchange_centred: 0-2 single steps, one or two multi-round keyboard-interactive exchanges (with
-    their interleaved steps), 0-2 single steps; otherwise an arbitrary sequence of both kinds of block."""
+    """exchange_centred: 0-2 single steps, one or two multi-message exchanges (multi-round keyboard-interactive with
+    interleaved steps, or publickey query + signed request), 0-2 single steps; otherwise an arbitrary sequence of
+    all kinds of block."""
     user = draw(users)
     single = step.map(lambda x: [x])
     if exchange_centred:
-        blocks = draw(st.lists(single, max_size=2)) + draw(st.lists(kbd_exchange(min_rounds=1), min_size=1, max_size=2)) + draw(st.lists(single, max_size=2))
+        xch = st.one_of(kbd_exchange(min_rounds=1), kbd_exchange(min_rounds=1).map(lambda x: x), pk_twostep())
+        blocks = draw(st.lists(single, max_size=2)) + draw(st.lists(xch, min_size=1, max_size=2)) + draw(st.lists(single, max_size=2))
     else:
-        blocks = draw(st.lists(st.one_of(single, single, kbd_exchange()), min_size=1, max_size=9))
+        blocks = draw(st.lists(st.one_of(single, single.map(lambda x: x), single.map(lambda x: x), kbd_exchange(), pk_twostep()), min_size=1, max_size=9))
     steps = []
     for b in blocks:
         for stp in b:
@@ -190,13 +253,13 @@ def make_policy(case, cur=None):
     def q():
         return InteractiveQuery("verif", "answer", ("Password: ", False))
 
-    def pk(user, blob):
-        name = A.blob_key_name(blob)
-        return RES[pol["pk"].get(name, pol["pk"]["default"])]
-
     def planned(kind):
         stp = cur.get("step")
         return stp.get("r") if stp is not None and stp.get("k") == kind else None
+
+    def pk(user, blob):
+        name = A.blob_key_name(blob)
+        return RES[planned("pk") or pol["pk"].get(name, pol["pk"]["default"])]
 
     def kbd(user, sub):
         r = planned("kbd") or pol["kbd"]
@@ -223,12 +286,12 @@ def make_policy(case, cur=None):
 def build_pk(sid, user, stp):
     """-> (request payload, proof_valid) ; the validity is decided by the independent verifier."""
     key, algo, v = stp["key"], stp["algo"].encode(), stp["v"]
-    kb = A.pub_blob(key)
+    kb = A.pub_blob(key)  # certificate keys: the certificate blob (it is what the request carries and what is signed)
     ub = user.encode("utf-8")
     if v == "probe":
         return A.req_pk_probe(ub, algo, kb), False
     d = dict(sid=sid, user=ub, service=A.CONN, algo=algo, keyblob=kb, method=b"publickey", omit_sid=False)
-    signer, sigalgo = key, algo
+    signer, sigalgo = key, sig_algo(stp["algo"]).encode()
     if v == "sid-other":
         d["sid"] = A.donor_sid()
     elif v == "sid-omitted":
@@ -240,19 +303,19 @@ def build_pk(sid, user, stp):
     elif v == "service":
         d["service"] = b"ssh-userauth"
     elif v == "algo":
-        others = [a for a in A.KEY_ALGOS[key] if a.encode() != algo]
-        d["algo"] = others[0].encode() if others else algo + b"x"
+        alts = algo_alternatives(key, stp["algo"])
+        d["algo"] = alts[stp.get("alt", 0) % len(alts)].encode()
     elif v == "key":
-        d["keyblob"] = A.pub_blob(A.SIBLING.get(key, "ed25519"))
+        d["keyblob"] = A.pub_blob(SIBLING.get(key, "ed25519"))
     elif v == "signer":
-        signer = A.SIBLING.get(key)
+        signer = A.SIBLING.get(A.base_key(key))
         if signer is None:  # no second key on that curve: sign with the right key over flipped data instead
             signer = key
             d["user"] = ub + b"\x00"
     elif v == "method":
         d["method"] = b"password"
     elif v == "sigalg":
-        others = [a for a in A.KEY_ALGOS[key] if a.encode() != algo]
+        others = [sig_algo(a) for a in A.key_algos(key) if sig_algo(a).encode() != sigalgo]
         if others:
             sigalgo = others[-1].encode()
     sig = A.sign(signer, sigalgo, A.session_blob(**d))
@@ -265,13 +328,30 @@ def build_pk(sid, user, stp):
     elif v == "emptysig":
         sig = b""
     good = A.session_blob(sid, ub, A.CONN, algo, kb)
-    valid = sig is not None and A.ref_verify(kb, good, sig)
-    if v == "trunc" and not valid and A.ref_verify(kb, good, sig + b"\x00"):
+    vk = A.plain_blob(key)  # the public key the proof must verify under (inside the certificate for certificate keys)
+    valid = sig is not None and A.ref_verify(vk, good, sig)
+    if v == "trunc" and not valid and A.ref_verify(vk, good, sig + b"\x00"):
         # the dropped byte was 0x00: paramiko's Message reader zero-fills short reads, so what the
         # server decodes IS the untruncated valid signature. That leniency is a wire-decoding matter
         # (C38/C39), not a proof accepted without the key: treated as a valid proof here.
         valid = True
     return A.req_pk_signed(ub, algo, kb, sig), valid
+
+
+def alt_kind(stp):
+    """Evidence class of an "algo" forgery: what the name written into the signed data is, relative to the declared one."""
+    key, algo = stp["key"], stp["algo"]
+    alts = algo_alternatives(key, algo)
+    alt = alts[stp.get("alt", 0) % len(alts)]
+    if alt == "":
+        return "empty"
+    if alt == algo + "x":
+        return "near-miss"
+    if alt == R.Reader(A.pub_blob(key)).string().decode():
+        return "key-type-of-the-blob"
+    if sig_algo(alt) == sig_algo(algo):
+        return "certificate-suffix-toggled"
+    return "other-algorithm-of-the-family"
 
 
 REQUEST_KINDS = ("none", "password", "pk", "kbd", "gssmic", "keyex", "other")
@@ -298,6 +378,7 @@ def execute(ctx, case, classes):
     cur = {}
     srv = peers.RecordingServer(make_policy(case, cur), allowed="password,publickey,keyboard-interactive,gssapi-with-mic,gssapi-keyex,none")
     kx = None  # the open keyboard-interactive exchange: user, rounds judged, steps interleaved so far
+    pkok = None  # ((key, algo), callback verdict) of the last publickey query answered with PK_OK
     first_user = None
     with A.gss_installed(stub):
         s = A.ServerSession(srv=srv)
@@ -325,7 +406,7 @@ def execute(ctx, case, classes):
                 elif k == "password":
                     cb, verdict = ("check_auth_password", pol["password"][stp["pw"]]) if not stp["change"] else (None, "F")
                 elif k == "pk":
-                    cb, verdict = "check_auth_publickey", pol["pk"].get(stp["key"], pol["pk"]["default"])
+                    cb, verdict = "check_auth_publickey", stp.get("r") or pol["pk"].get(A.base_key(stp["key"]), pol["pk"]["default"])
                 elif k == "kbd":
                     cb, verdict = "check_auth_interactive", stp.get("r") or pol["kbd"]
                 elif k == "resp":
@@ -350,7 +431,22 @@ def execute(ctx, case, classes):
                     probe = stp["v"] == "probe"
                     classes.add("pk:" + stp["v"])
                     classes.add("pkalgo:" + stp["algo"])
+                    if stp["v"] == "algo":
+                        classes.add("pk:algo-field-signed-as:%s:declared=%s" % (alt_kind(stp), sig_algo(stp["algo"]) + ("+cert" if A.is_cert(stp["key"]) else "")))
                     r = s.exchange(payload)
+                    # ---- the two-step exchange: query answered with PK_OK, then the signed request for the same key
+                    same = (stp["key"], stp["algo"])
+                    if probe:
+                        pkok = (same, verdict) if 60 in [t for t, _ in r.replies] else None
+                        if pkok:
+                            classes.add("pk-query-answered-PK_OK:callback=" + verdict)
+                    elif pkok is not None and pkok[0] == same:
+                        classes.add("pk-two-step:query=%s,signed=%s:%s" % (pkok[1], verdict, "valid-proof" if proof_ok else "forged-proof"))
+                        if pkok[1] != verdict:
+                            classes.add("pk-two-step:callback-result-changed-between-query-and-signed-request")
+                        if i and steps[i - 1] is not None and not (steps[i - 1].get("k") == "pk" and steps[i - 1].get("v") == "probe"):
+                            classes.add("pk-two-step:with-interleaved-step")
+                        pkok = None
                 elif k == "kbd":
                     r = s.exchange(A.req_kbdint(u, stp["sub"]))
                 elif k == "resp":
@@ -505,14 +601,25 @@ def focused_cases(quick):
         p.update(kw)
         return p
 
-    keys_ = ("ed25519", "ecdsa256", "rsa2048") if quick else ("ed25519", "ecdsa256", "ecdsa384", "ecdsa521", "rsa2048", "rsa1024")
-    forged = [v for v in PK_VARIANTS if v not in ("valid", "sigalg")]
+    keys_ = ("ed25519", "ecdsa256", "rsa2048", "rsa2048-cert") if quick else ("ed25519", "ecdsa256", "ecdsa384", "ecdsa521", "rsa2048", "rsa1024") + tuple(CERTKEYS)
+    forged = [v for v in PK_VARIANTS if v not in ("valid", "sigalg", "algo")]
     for key in keys_:
-        for algo in A.KEY_ALGOS[key]:
-            for part in (forged[:8], forged[8:] + ["sigalg"]):
-                steps = [{"k": "pk", "key": key, "algo": algo, "v": v} for v in part]
-                steps.append({"k": "pk", "key": key, "algo": algo, "v": "valid"})
-                out.append({"user": "alice", "gss": False, "policy": pol(), "steps": steps})
+        for algo in A.key_algos(key):
+            # the "algorithm field changed" forgery with every alternative name
+            algo_forgeries = [_pk(key, algo, "algo", alt=j) for j in range(len(algo_alternatives(key, algo)))]
+            parts = [[_pk(key, algo, v) for v in forged[:8]], [_pk(key, algo, v) for v in forged[8:] + ["sigalg"]]]
+            parts += [algo_forgeries[j : j + 8] for j in range(0, len(algo_forgeries), 8)]
+            for part in parts:
+                out.append({"user": "alice", "gss": False, "policy": pol(), "steps": part + [_pk(key, algo, "valid")]})
+    # the two-step exchange (query, then signed request for the same key) under every pair of per-call callback
+    # results, with a valid proof and with a forged one (quick: 3 key/algorithm pairs; thorough: all)
+    two = [("ed25519", "ssh-ed25519"), ("rsa2048", "rsa-sha2-512"), ("rsa2048-cert", "rsa-sha2-256" + A.CERT_SUFFIX)] if quick else [(k, a) for k in KEYNAMES for a in A.key_algos(k)]
+    for n, (key, algo) in enumerate(two):
+        for r1 in ("F", "P", "S"):
+            for r2 in ("F", "P", "S"):
+                for v in ("valid", "sid-other", "algo", "bitflip", "user", "signer")[: 6 if not quick else 4 if n == 0 else 2]:
+                    steps = [_pk(key, algo, "probe", r=r1), _pk(key, algo, v, alt=n, r=r2)]
+                    out.append({"user": "alice", "gss": False, "policy": pol(pk={"default": "F"}), "steps": steps})
     for verdict in ("F", "P", "S"):
         for mic_ok in (True, False):
             for tokens in ([b"srv-token"], [None], [b"srv-token", None], [], ["raise"]):
